@@ -63,6 +63,15 @@ impl Catalog {
         Ok(id)
     }
 
+    /// Re-creates a schema read back from the catalog file, keeping the id it was saved with.
+    pub fn restore_schema(&mut self, id: SchemaId, name: &str) {
+        self.schemas
+            .insert(name.to_string(), Schema::new(id, name));
+        if id >= self.next_schema_id {
+            self.next_schema_id = id.saturating_add(1);
+        }
+    }
+
     pub fn drop_schema(&mut self, name: &str) -> Result<()> {
         ensure!(
             name != "turdb_catalog",
